@@ -479,6 +479,10 @@ pub enum Role {
 }
 
 pub fn gen_role_machine(r: &mut SplitMix64, role: Role, bypass: Option<bool>) -> Machine {
+    gen_role_machine_rp(r, role, bypass, None)
+}
+
+pub fn gen_role_machine_rp(r: &mut SplitMix64, role: Role, bypass: Option<bool>, replace: Option<bool>) -> Machine {
     let evs = [
         Event::NormalSent,
         Event::TunnelSent,
@@ -494,7 +498,7 @@ pub fn gen_role_machine(r: &mut SplitMix64, role: Role, bypass: Option<bool>) ->
     let tmo = const_dist(*r.pick(&[0.0, 0.0, 1.0, 2.0, 5.0, 10.0, 50.0, 100.0, 1000.0]));
     let dur = const_dist(*r.pick(&[0.0, 1.0, 3.0, 10.0, 100.0, 1000.0, 100000.0]));
     let by = bypass.unwrap_or_else(|| r.chance(1, 2));
-    let rp = r.chance(1, 2);
+    let rp = replace.unwrap_or_else(|| r.chance(1, 2));
     let limit = if r.chance(1, 3) { Some(const_dist(*r.pick(&[1.0, 2.0, 5.0]))) } else { None };
     let action = match role {
         Role::Blocker => Action::BlockOutgoing { bypass: by, replace: rp, timeout: tmo, duration: dur, limit },
